@@ -5,7 +5,9 @@ from ..rules import pC24
 ID = 'C24'
 TECHNIQUE = ('resolved interface analysis of emitted C text (helper calls with the Signature.fastvar suffix expanded over its finite domain) '
              'against the utility catalogue; exhaustive evaluation of the #if tree of the fastcall helper family; path-sensitive '
-             'dataflow for utility loads, raise=>exit and labels; table comparison of METH_* flag combinations with the C dispatch switches')
+             'dataflow for utility loads, raise=>exit and labels; table comparison of METH_* flag combinations with the C dispatch switches; '
+             'symbolic evaluation of the wrapper generator over the complete partition of the `**kwargs` state; taint analysis (container element -> '
+             'representation-level string comparison) over FunctionArguments.c with guards decided by a truth table over {exact str, str subclass, not a str}')
 DECIDES = ('C24-I5: every emitted call to a FunctionArguments.c helper has the arity of every #if variant of the helper; '
            'C24-FAM: every __Pyx_<Family>_<fastvar> helper that can be emitted is defined with that arity under every feasible assignment of '
            'the #if conditions of the fastcall section; C24-GUARD: the variant chosen by Signature.fastvar uses the fastcall argument layout '
@@ -16,9 +18,14 @@ DECIDES = ('C24-I5: every emitted call to a FunctionArguments.c helper has the a
            'C24-RX: an emitted call to an exception-setting void helper is followed by an error exit on every path; '
            'C24-G3/G4: the argument-error label is restored, and every label created by the wrapper generator is placed exactly once; '
            'C24-FLAGS: the METH_* combinations produced by Signature.method_flags are cases of the CyFunction vectorcall/tp_call switches '
-           'and each case calls the method pointer with the argument count of that CPython calling convention.')
-NOT_DECIDED = ('the keyword matching algorithm itself (__Pyx_ParseKeywords*/__Pyx_MatchKeywordArg: interned vs. non-interned names, str '
-               'subclasses, duplicates), the arithmetic relating values[] indices, argnames[] offsets and positional counts in the emitted '
+           'and each case calls the method pointer with the argument count of that CPython calling convention; '
+           'C24-KW2: for each of {no **kwargs, **kwargs never read (C variable NULL), **kwargs read}: the dict and ignore_unknown arguments of the emitted '
+           '__Pyx_ParseKeywords call (positions taken from the C definitions) together with the emission creating the dict accept unknown keywords exactly when the '
+           'signature has **kwargs, a read dict is passed and created, and no __Pyx_RejectKeywords emission is reachable with **kwargs; '
+           'C24-EXACT: a keyword name taken out of the caller\'s container reaches memcmp/PyUnicode_DATA, the cached ->hash or PyUnicode_Compare (directly or through '
+           'helper parameters, propagated to a fixpoint) only under a dominating condition that is true for exact str alone.')
+NOT_DECIDED = ('the rest of the keyword matching algorithm (__Pyx_ParseKeywords*/__Pyx_MatchKeywordArg: duplicates, the order of the two search loops, '
+               'what the C helpers do with the dict / ignore flag they receive), the arithmetic relating values[] indices, argnames[] offsets and positional counts in the emitted '
                'switch statements, reference counting of values[], and S3 (raise => error return inside the C helpers, needs a C CFG); '
                'I8 is decided for the emitters in Nodes.py only (ExprNodes collects helper names in a set and loads them in a loop).')
 ASSUMPTIONS = ['preprocessor identifiers of the fastcall section are independent 0/1 switches (version macros take the values around '
@@ -58,6 +65,15 @@ MUTATIONS = [
     ('Cython/Utility/CythonFunction.c', "__Pyx_CyFunction_Init: swap the vectorcall functions assigned for METH_NOARGS and METH_O", 'C24-FLAGS'),
     ('Cython/Utility/CythonFunction.c', "__Pyx_CyFunction_CallMethod, case METH_VARARGS|METH_KEYWORDS: call meth(self, arg) without kw", 'C24-FLAGS'),
     ('Cython/Compiler/TypeSlots.py', "method_flags: [method_fastcall, method_keywords] -> [method_fastcall]", 'C24-FLAGS'),
+    ('Cython/Compiler/Nodes.py', "seed C24a: has_kwargs_dict = starstar_arg is not None and entry.cf_used, used for both the dict and the ignore flag", 'C24-KW2 unused'),
+    ('Cython/Compiler/Nodes.py', "generate_keyword_unpacking_code: flag `self.starstar_arg is None` / constant 0", 'C24-KW2 (absent + unused / unused)'),
+    ('Cython/Compiler/Nodes.py', "generate_keyword_unpacking_code: dict argument always '0'", 'C24-KW2 used'),
+    ('Cython/Compiler/Nodes.py', "generate_stararg_init_code: `and not self.starstar_arg.entry.cf_used` (dict created only when unused)", 'C24-KW2 used'),
+    ('Cython/Compiler/Nodes.py', "generate_tuple_and_keyword_parsing_code: accept_kwd_args = bool(non_posonly_args)", 'C24-KW2 RejectKeywords'),
+    ('Cython/Compiler/Nodes.py', "generate_stararg_copy_code: `if self.starstar_arg and self.starstar_arg.entry.cf_used:` (unused ** falls into the reject branch)", 'C24-KW2 RejectKeywords'),
+    ('Cython/Utility/FunctionArguments.c', "seed C24b: __Pyx_MatchKeywordArg dispatches on PyUnicode_Check", 'C24-EXACT (both callers)'),
+    ('Cython/Utility/FunctionArguments.c', "__Pyx_MatchKeywordArg: dispatch removed (always _str) / arms swapped / `CheckExact(key) || Check(key)`", 'C24-EXACT (3 variants)'),
+    ('Cython/Utility/FunctionArguments.c', "__Pyx_ParseKeywordsTuple calls __Pyx_MatchKeywordArg_str(key, ...) directly", 'C24-EXACT'),
 ]
 # Behaviour-preserving edits tried: all stay silent.
 PRESERVING = [
@@ -68,6 +84,11 @@ PRESERVING = [
     ('Cython/Compiler/Nodes.py', 'move method generate_stararg_init_code above generate_arg_assignment'),
     ('Cython/Utility/FunctionArguments.c', 'reorder two #define lines of the CYTHON_VECTORCALL_TPNEW block'),
     ('Cython/Utility/FunctionArguments.c', 'rename the macro parameters of __Pyx_KwValues_FASTCALL'),
+    ('Cython/Compiler/Nodes.py', 'ParseKeywords emission rewritten with %-format, locals has_starstar / kwds2, NULL instead of 0, int(has_starstar)'),
+    ('Cython/Compiler/Nodes.py', 'accept_kwd_args by De Morgan; generate_stararg_init_code with a local alias and nested ifs, f-string emission'),
+    ('Cython/Utility/FunctionArguments.c', '__Pyx_MatchKeywordArg: `if (unlikely(!PyUnicode_CheckExact(key))) return nostr(...); return str(...);`'),
+    ('Cython/Utility/FunctionArguments.c', '__Pyx_MatchKeywordArg: `unlikely(!Py_IS_TYPE(key, &PyUnicode_Type)) ? nostr : str`'),
+    ('Cython/Utility/FunctionArguments.c', '__Pyx_MatchKeywordArg_str: parameter renamed, the ->hash read extracted into a new helper function'),
 ]
 
 
@@ -80,4 +101,4 @@ def run(ctx):
     from ..rules import sC24
     return [pC24.rule_arity(ctx, sites), fam, guard, pC24.rule_proto_def(ctx), pC24.rule_order(ctx, sites),
             pC24.rule_sections(ctx, sites, domain), pC24.rule_raise_exit(ctx, sites, domain), g3, g4, pC24.rule_flags(ctx),
-            sC24.rule_kw2(ctx)]
+            sC24.rule_kw2(ctx), sC24.rule_exact(ctx)]
